@@ -49,13 +49,16 @@ def parse_blocks(text):
                 if f:
                     cur = f[0]
                     body = []
+                    # (what a marker line carries besides the name - comment leader, a note - is not code)
+                    skel.append(BEGIN + " " + cur)
+                    continue
             skel.append(line.strip())
         else:
             i = line.find(END)
             if i > 0 and line[i + len(END):].split()[:1] == [cur]:
                 blocks.append((cur, body))
+                skel.append(END + " " + cur)
                 cur = None
-                skel.append(line.strip())
             else:
                 body.append(line)
     return blocks, skel
